@@ -80,6 +80,19 @@ pub fn err_class(code: &str, _message: &str) -> &'static str {
     }
 }
 
+/// An Assertion's lifecycle status as the model's `val`: 0 = active, 1 = retracted, 2 = the empty
+/// status of a row that went through `governance::purge::stub` (a default row: a following
+/// `RETRACT … EXPECT STATE "active"` of the same Assertion fails its guard; a following ARCHIVE /
+/// TOMBSTONE changes the state and keeps the empty status). Only the empty status of a not yet
+/// filled-in `pending` shell stays 0: no generated clause reads it.
+fn assertion_status_code(status: &str, state: &str) -> u32 {
+    match status {
+        "retracted" => 1,
+        "" if state != "pending" => 2,
+        _ => 0,
+    }
+}
+
 #[derive(Clone, Debug, PartialEq, Eq)]
 pub struct RawElem {
     pub version: u64,
@@ -293,7 +306,7 @@ impl World {
                         };
                         (serde_json::to_value(r).unwrap_or(Value::Null), RawElem { version: r.version, state: r.state.clone(), ty: pred_code(&r.predicate_ref), key: 0, val: 0, att: 0, fac: 0, pay: 0, tup, seq: r.seq, schema_ref: String::new(), key_text: String::new(), tuple_key: r.tuple_key.clone(), full: String::new() })
                     }
-                    Element::Assertion(r) => (serde_json::to_value(r).unwrap_or(Value::Null), RawElem { version: r.version, state: r.state.clone(), ty: 0, key: 0, val: (r.status == "retracted") as u32, att: 0, fac: 0, pay: if r.proposition_id.is_empty() { 0 } else { (r.confidence * 100.0).round() as u32 }, tup: "-".into(), seq: r.seq, schema_ref: String::new(), key_text: String::new(), tuple_key: String::new(), full: String::new() }),
+                    Element::Assertion(r) => (serde_json::to_value(r).unwrap_or(Value::Null), RawElem { version: r.version, state: r.state.clone(), ty: 0, key: 0, val: assertion_status_code(&r.status, &r.state), att: 0, fac: 0, pay: if r.proposition_id.is_empty() { 0 } else { (r.confidence * 100.0).round() as u32 }, tup: "-".into(), seq: r.seq, schema_ref: String::new(), key_text: String::new(), tuple_key: String::new(), full: String::new() }),
                     Element::Evidence(r) => (serde_json::to_value(r).unwrap_or(Value::Null), RawElem { version: r.version, state: r.state.clone(), ty: 0, key: 0, val: 0, att: 0, fac: 0, pay: code_of(r.payload_inline.as_str().unwrap_or("")), tup: "-".into(), seq: r.seq, schema_ref: String::new(), key_text: String::new(), tuple_key: String::new(), full: String::new() }),
                     Element::Activity(r) => (serde_json::to_value(r).unwrap_or(Value::Null), RawElem { version: r.version, state: r.state.clone(), ty: 0, key: 0, val: 0, att: 0, fac: 0, pay: code_of(&r.parameters_digest), tup: "-".into(), seq: r.seq, schema_ref: String::new(), key_text: String::new(), tuple_key: String::new(), full: String::new() }),
                 };
